@@ -294,7 +294,7 @@ func (s *server) OnWebTransportSession(ctx *types.HttpContext, wt *webtransport.
 		Sid string `json:"sid"`
 	}
 
-	if json.NewDecoder(value.Data).Decode(&wth) != nil {
+	if json.NewDecoder(value.Data).Decode(&wth) != nil || wth == nil {
 		server_log.Debug("invalid WebTransport handshake")
 		abortUpgrade(ctx, BAD_REQUEST, nil)
 		return
